@@ -531,6 +531,13 @@ var optionalPrograms = []string{
 	`[om] == [om2]`, `[om.p] == [om2.p]`, `[ms] == [ms]`, `[[mb], [mb2]] == [[mb2], [mb]]`, `len(union([mb], [mb2]))`, `len(intersect([mb], [mb2]))`,
 	`len(diff([mb, mb2], [mb]))`, `string([mb, mb2])`, `string(om) + string(om2)`, `get(mb, 0) == get(mb2, 0)`, `get(om.p, "") == get(om2.p, "")`,
 	`if(b1, mb, mb2)`, `[mb, mb2][1]`, `get([mb], 0, mb2)`, `isset(["k": mb], "k")`, `["a": mb, "b": mb2]["b"]`, `{p: mb, q: mb2}.q`,
+	// one variable of a composite type mentioned twice in the first row (its type is then ONE node
+	// occurring twice in the expected type), an optional in the place of the second occurrence in
+	// a later row: must be rejected
+	`[{a: om, b: om}, {a: om2, b: om.p}]`, `[{a: om, b: om}, {a: om2, b: mb}]`, `[{a: xs, b: xs}, {a: [1], b: mb}]`,
+	`[{a: os, b: os}, {a: [{a: 1, b: ""}], b: ms}][1].b[0]`, `len([{a: xs, b: xs}, {a: [1], b: mb}][1].b)`,
+	`["k": {a: m, b: m}, "j": {a: ["x": 1], b: ms}]`, `[[xs, xs], [[1], [mb]]]`, `[{a: om, b: om}, {a: om2, b: om2}][1].b.q`,
+	`[{a: xs, b: xs}, {a: [1], b: [2]}][1].b[0]`, `if(b1, {a: ss, b: ss}, {a: [""], b: ms})`,
 }
 
 func init() {
